@@ -84,6 +84,8 @@ def rand_datetime(rng):
 
 
 def gen_case(rng, index, tier):
+    if index % 150 == 7:
+        return gen_slow_case(rng, index, tier)
     if index % 3 == 0:
         return {'kind': 'direct', 'n': 400 if tier == 'quick' else 800,
                 'seed': rng.getrandbits(48)}
@@ -144,6 +146,73 @@ def local_now(tz):
         else:
             os.environ['TZ'] = old
         time.tzset()
+
+
+def gen_slow_case(rng, index, tier):
+    """two arguments trashed by ONE slow process (every mutating operation
+    is delayed): each DeletionDate is the time at which THAT entry was
+    trashed, not the time the command started"""
+    L = gen.make_layout(rng, volumes=[], home_own_volume=False, xdg='unset',
+                        trash_volumes_env=False)
+    workdirs = c01.setup_workdirs(L, rng)
+    used = set()
+    args = [c01.add_entry(L, rng, workdirs, i, 'c%ds%d' % (index, i), used,
+                          kinds=['file', 'empty'], spellings=['rel', 'abs'],
+                          deep=False, name='slow%d-%d' % (index, i))
+            for i in range(2)]
+    case = L.desc()
+    case['kind'] = 'slow2'
+    case['args'] = args
+    return case
+
+
+def run_slow(case):
+    import time
+    out = {'violations': [], 'obs': {}, 'features': ['slow2']}
+    obs = out['obs']
+    with world.World(case) as w:
+        s0 = w.snapshot()
+        argv = ['--'] + [world.subst(a['spelling'], w.R) for a in case['args']]
+        t_start = time.time()
+        r = run.run(w, 'put', argv, stdin=b'',
+                    plan={'delay_us': 450000, 'timestamps': True}, watchdog=60)
+        s1 = w.snapshot()
+        if r.timeout or r.audit_ok() is False:
+            out['verdict'] = 'inconclusive'
+            out['why'] = 'watchdog' if r.timeout else 'audit mismatch'
+            return out
+        A = putcheck.analyze(s0, s1, [a['rel'] for a in case['args']])
+        if any(o['state'] != 'TRASHED' for o in A.outcomes):
+            out['verdict'] = 'inconclusive'
+            out['why'] = 'slow run did not trash both arguments'
+            return out
+        renames = [e for e in r.events if e['op'] == 'rename' and e.get('r') == 'ok'
+                   and 't' in e]
+        dates = []
+        for o in A.outcomes:
+            m = spec.INFO_GRAMMAR.match(trashio.read_info(w.abs(o['info'])))
+            dates.append(spec.parse_date(m.group(2).decode('ascii')) if m else None)
+        if len(renames) < 2 or None in dates:
+            out['verdict'] = 'inconclusive'
+            out['why'] = 'no timestamps / unreadable info'
+            return out
+        obs['slow_two_argument_runs'] = 1
+        t1 = datetime.datetime.fromtimestamp(int(renames[0]['t']))
+        # the second entry was still in place when the first had been delivered
+        if dates[1] < t1:
+            out['violations'].append({
+                'mechanism': 'date-of-a-later-argument-predates-its-trashing',
+                'detail': {'first_delivered_at': str(t1), 'dates': [str(d) for d in dates],
+                           'run': r.brief()}})
+        if dates[0] < datetime.datetime.fromtimestamp(int(t_start)) or \
+                dates[1] > datetime.datetime.fromtimestamp(int(renames[1]['t']) + 1):
+            out['violations'].append({
+                'mechanism': 'date-outside-run-bracket',
+                'detail': {'dates': [str(d) for d in dates]}})
+    out['nontrivial'] = True
+    out['sample_obs'] = {'dates': [str(d) for d in dates]}
+    out['verdict'] = 'violation' if out['violations'] else 'ok'
+    return out
 
 
 def run_direct(case):
@@ -207,6 +276,8 @@ def run_direct(case):
 def run_case(case):
     if case['kind'] == 'direct':
         return run_direct(case)
+    if case['kind'] == 'slow2':
+        return run_slow(case)
     out = {'violations': [], 'obs': {}, 'features': ['e2e']}
     obs = out['obs']
     a = case['args'][0]
